@@ -113,6 +113,7 @@ def run_conc(u, params, given=None, rng=None, timeout=None):
         res["error"] = traceback.format_exc()
     finally:
         _alarm_off()
+        U.restore_substitutions()
     res["records"] = U.records
     res["drawn"] = U.drawn
     return res
